@@ -60,6 +60,10 @@ impl Harness for Sup {
 	fn run(&self, sc: &Sc, bounds: Bounds, prefix: &[Point]) -> Result<Exec<Obs>, String> {
 		run::run(sc, bounds, prefix, &self.set)
 	}
+	fn hang_is_violation(&self) -> bool {
+		// C04 and C10 are pure safety properties
+		!matches!(self.set, mon::Set::C04 | mon::Set::C10)
+	}
 }
 
 fn main() {
